@@ -83,6 +83,20 @@ int main()
       if ((int)pw.size() == S1.getNRows() * S1.getNCols()) same("covmat_pairwise", flat(S1), pw, {}, {}, 1., st);
     }
 
+    // ---- (a') covariance matrices on a data base holding duplicated locations (legal for a
+    // covariance matrix, e.g. with a nugget effect or measurement errors; never used for kriging here)
+    {
+      auto Xd = X; auto Zd = Z; int ndup = (int)rng.range(1, 3);
+      for (int k = 0; k < ndup; k++) { int i = (int)rng.range(0, nech - 1); Xd.push_back(X[i]); for (int a = 0; a < nvar; a++) Zd[a].push_back(Z[a][i] + 1.); }
+      Db* dd = makeDb(Xd, ndim, Zd, {}, {}, {});
+      MatrixSquareSymmetric S1 = model->evalCovMatrixSymmetric(dd), S2 = model->evalCovMatrixSymmetricOptim(dd);
+      MatrixRectangular R1 = model->evalCovMatrix(dd, dd), R2 = model->evalCovMatrixOptim(dd, dd);
+      if (S2.getNRows() == S1.getNRows()) same("covmat_sym_optim_duplicates", flat(S1), flat(S2), {}, {}, 1., st);
+      if (R2.getNRows() == R1.getNRows() && R2.getNCols() == R1.getNCols()) same("covmat_rect_optim_duplicates", flat(R1), flat(R2), {}, {}, 1., st);
+      same("covmat_sym_vs_rect_duplicates", flat(S1), flat(R1), {}, {}, 1., st);
+      delete dd;
+    }
+
     ANeigh* neighU = NeighUnique::create();
     Run base = runKrig(dbin, dbout, model, neighU, nvar);
     if (!base.ok) { st.hit("refused"); delete neighU; delete model; delete dbin; delete dbout; continue; }
